@@ -462,6 +462,18 @@ func (c *Ctx) finish(verifDir string, info propInfo, replayOnly string) int {
 		pk = append(pk, relPkg(p.PkgPath))
 	}
 	total := len(order)
+	if info.Assumptions == nil {
+		info.Assumptions = []string{"the frozen tables of the checker name the right anchors (unresolved anchors fail the check as undecided)"}
+	}
+	if c.Undecided == nil {
+		c.Undecided = []string{}
+	}
+	if c.Notes == nil {
+		c.Notes = []string{}
+	}
+	if replays == nil {
+		replays = []string{}
+	}
 	ev := map[string]any{
 		"property_id": c.Prop,
 		"tier":        c.Tier,
